@@ -208,11 +208,30 @@ fn run_non_interference(case: &Case, rep: &mut RunReport) -> Result<(), Violatio
     let (sim_a, _sa, full) = boot(case.seed, ClockMode::Tick(2))?;
     let owner_full = full.system_session();
     agent(&full, READER)?;
-    read_grant(&full, READER, "internal", "", false)?;
+    read_grant(&full, READER, "internal", "", true)?;
     let (_sim_b, _sb, clone) = boot(case.seed, ClockMode::Tick(2))?;
     let owner_clone = clone.system_session();
     agent(&clone, READER)?;
-    read_grant(&clone, READER, "internal", "", false)?;
+    read_grant(&clone, READER, "internal", "", true)?;
+    // the capped reader delegates to a third principal WITHOUT restating its
+    // ceiling: whatever that delegation confers, it is not more than the
+    // delegator holds, so the delegate is held to the same differential
+    let mut delegated = true;
+    for nx in [&full, &clone] {
+        agent(nx, DELEGATE)?;
+        let r = block(nx.governance().create_delegation(
+            DelegationDraft {
+                space_id: DEFAULT_SPACE.into(),
+                delegator_principal: READER.into(),
+                delegate_principal: DELEGATE.into(),
+                actions: vec!["read".into(), "search".into(), "discover".into(), "project".into(), "read_history".into()],
+                ..Default::default()
+            },
+            READER,
+        ));
+        delegated &= r.is_ok();
+    }
+    rep.probe(if delegated { "delegation_without_restated_ceiling_created" } else { "delegation_without_restated_ceiling_refused" }, 1);
     sim_a.install_clock_here();
     let low_names = ["Alice", "Bob", "Carol", "Dora"];
     let high_names = ["Secret One", "Secret Two", "Secret Three"];
@@ -297,6 +316,77 @@ fn run_non_interference(case: &Case, rep: &mut RunReport) -> Result<(), Violatio
             rep.probe("low_statements", 1);
         }
         executed.push(format!("{}: {template}", if *high { "HIGH" } else { "low" }));
+    }
+    // a grant narrowed to listed elements discloses exactly those: half of the
+    // visible concepts are listed, the other half - same kind, same type, same
+    // classification - must stay invisible (decided by id lookup)
+    if low_full.len() >= 2 {
+        const SCOPED: &str = "kip:principal:scoped";
+        agent(&full, SCOPED)?;
+        let mut listed: Vec<String> = low_full.iter().step_by(2).cloned().collect();
+        listed.sort();
+        listed.dedup();
+        block(full.governance().create_grant(
+            GrantDraft {
+                space_id: DEFAULT_SPACE.into(),
+                grantee_principal: SCOPED.into(),
+                actions: vec!["read".into(), "search".into(), "discover".into()],
+                scope: anda_cognitive_nexus::governance::rows::AuthorityScope { elements: listed.clone(), ..Default::default() },
+                ..Default::default()
+            },
+            SYSTEM_PRINCIPAL,
+        ))
+        .map_err(|e| violation!("c19.setup", "element-scoped grant failed: {e:?}"))?;
+        let sess = full.session(AuthContext::principal(SCOPED));
+        // what the owner sees of the listed concepts (some may have been merged away or archived)
+        let owner_ids: Vec<String> = {
+            let o = block(exec(&owner_full, r#"FIND(?c.id) WHERE { ?c CONCEPT {} }"#, false));
+            let mut v: Vec<String> = o.result.as_array().map(|a| a.iter().filter_map(|x| x.as_str().map(|s| s.to_string())).collect()).unwrap_or_default();
+            v.retain(|id| listed.contains(id));
+            v.sort();
+            v
+        };
+        for q in [r#"FIND(?c.id) WHERE { ?c CONCEPT {} }"#, r#"FIND(?c.id) WHERE { ?c CONCEPT {type: "Person"} } ORDER BY ?c.name"#] {
+            let o = block(exec(&sess, q, false));
+            let mut got: Vec<String> = o.result.as_array().map(|a| a.iter().filter_map(|x| x.as_str().map(|s| s.to_string())).collect()).unwrap_or_default();
+            got.sort();
+            if !o.ok() || got != owner_ids {
+                return Err(violation!(
+                    "c19.element-scope",
+                    "principal {SCOPED} holds one grant narrowed to the elements {listed:?}; `{q}` returns {got:?} ({:?}), the listed concepts the owner sees are {owner_ids:?}; history: {:?}",
+                    o.error,
+                    executed
+                ));
+            }
+        }
+        let o = block(exec(&sess, r#"FIND(COUNT(?c)) WHERE { ?c CONCEPT {} }"#, false));
+        let n = o.result.as_array().and_then(|a| a.first()).and_then(|x| x.as_u64()).or_else(|| o.result.as_u64());
+        if n != Some(owner_ids.len() as u64) {
+            return Err(violation!("c19.element-scope", "principal {SCOPED} (grant narrowed to {listed:?}) counts {:?} concepts, {} are listed and live", o.result, owner_ids.len()));
+        }
+        rep.probe("element_scoped_grants_checked", 1);
+    }
+    // the delegate's view of S equals its view of S' (errors included)
+    {
+        let d_full = full.session(AuthContext::principal(DELEGATE));
+        let d_clone = clone.session(AuthContext::principal(DELEGATE));
+        let (a, b) = (answers_as(&d_full), answers_as(&d_clone));
+        for ((q, _, ra), (_, _, rb)) in a.iter().zip(b.iter()) {
+            if ra != rb {
+                let n = ra.len().min(rb.len());
+                let pos = (0..n).find(|i| ra.as_bytes()[*i] != rb.as_bytes()[*i]).unwrap_or(n);
+                let from = pos.saturating_sub(80);
+                return Err(violation!(
+                    "c19.interference.delegate",
+                    "principal {DELEGATE}, delegate of {READER} (ceiling internal; {} hidden elements), gets for `{q}` on the full store …{}… but on the store without the hidden elements …{}…; history: {:?}",
+                    high_full.len(),
+                    &ra[from..(pos + 160).min(ra.len())],
+                    &rb[from..(pos + 160).min(rb.len())],
+                    executed
+                ));
+            }
+            rep.probe("delegate_differential_answers_compared", 1);
+        }
     }
     // the principal's view of S equals its view of S'
     let p_full = full.session(AuthContext::principal(READER));
